@@ -297,3 +297,30 @@ def safe_expand(fa, e, at=None):
         return fa.expand(e, ids[0]) if ids else e
     except AnalysisError:
         return e
+
+
+def value_sources(fa, ret, max_depth=4):
+    """What a `return` hands out, per origin: [(expression, CFG node where it is evaluated)].  A returned local is
+    followed through its reaching plain assignments -- one (a temporary) or several (a result variable set on different
+    branches and returned once at the end) -- so that a rule about "the value served" sees `entry.value` and
+    `self.refs[k]` whether they are returned directly or through `value = ...; return value`."""
+    out = []
+
+    def rec(e, nid, depth):
+        if isinstance(e, ast.Name) and depth < max_depth:
+            ds = fa.df.reaching(nid, e.id)
+            if ds and all(d.kind == "assign" and d.value is not None and d.node >= 0 for d in ds):
+                for d in ds:
+                    rec(d.value, d.node, depth + 1)
+                return
+        out.append((e, nid))
+
+    if ret.value is not None:
+        for i in fa.nodes(ret):
+            rec(ret.value, i, 0)
+    seen, uniq = set(), []
+    for (e, i) in out:
+        if (id(e), i) not in seen:
+            seen.add((id(e), i))
+            uniq.append((e, i))
+    return uniq
